@@ -54,7 +54,7 @@ impl Collector {
             failures: vec![],
             stats: BTreeMap::new(),
             drift: BTreeMap::new(),
-            max_failures: 40,
+            max_failures: 25,
         }
     }
     pub fn eval(&mut self) {
@@ -78,7 +78,8 @@ impl Collector {
         }
     }
     pub fn fail(&mut self, tag: &str, kind: &str, sig: &str, case: String, detail: String) {
-        if self.failures.len() < self.max_failures {
+        // the cap is per check tag: a flood of one kind of failure must not hide another kind
+        if self.failures.iter().filter(|f| f.tag == tag).count() < self.max_failures {
             self.failures.push(Failure {
                 tag: tag.to_string(),
                 kind: kind.to_string(),
